@@ -334,6 +334,11 @@ func (vfs *MemFS) Link(oldname, newname string) error {
 		return &os.LinkError{Op: op, Old: oldname, New: newname, Err: nerr}
 	}
 
+	if !pi.IsLast() {
+		// a directory of newname is missing.
+		return &os.LinkError{Op: op, Old: oldname, New: newname, Err: nerr}
+	}
+
 	nParent.mu.Lock()
 	defer nParent.mu.Unlock()
 
@@ -782,7 +787,8 @@ func (vfs *MemFS) Rename(oldpath, newpath string) error {
 	}
 
 	nParent, nChild, nPI, nErr := vfs.searchNode(newpath, slmLstat)
-	if nErr != vfs.err.FileExists && !vfs.isNotExist(nErr) {
+	if nErr != vfs.err.FileExists && !vfs.isNotExist(nErr) || vfs.isNotExist(nErr) && !nPI.IsLast() {
+		// newpath can't be resolved or one of its directories is missing.
 		return &os.LinkError{Op: op, Old: oldpath, New: newpath, Err: nErr}
 	}
 
@@ -919,7 +925,8 @@ func (vfs *MemFS) Symlink(oldname, newname string) error {
 	const op = "symlink"
 
 	parent, _, pi, nerr := vfs.searchNode(newname, slmLstat)
-	if !vfs.isNotExist(nerr) {
+	if !vfs.isNotExist(nerr) || !pi.IsLast() {
+		// newname exists or one of its directories is missing.
 		return &os.LinkError{Op: op, Old: oldname, New: newname, Err: nerr}
 	}
 
